@@ -750,7 +750,9 @@ def obs_diff(m, r):
     if m == r: return None
     order_only = False
     if m['to_save'] != r['to_save']:
-        key = lambda l: sorted(-1 if x is None else x for x in l)
+        # the order of the queue and its None holes (an object queued as 'modified' and then re-queued by its delete leaves one) depend on
+        # the order in which a cascade visits objects; what flush works from is the set of queued objects
+        key = lambda l: sorted(x for x in l if x is not None)
         if key(m['to_save']) != key(r['to_save']): return ('to_save', m['to_save'], r['to_save'])
         order_only = True
     for f in ('pkidx', 'idx', 'cidx', 'modcoll', 'modified'):
